@@ -101,6 +101,7 @@ class Engine:
         analysis.prog = prog
         self.recording = True
         self.handler_stack = []   # (bound name, exception class) of the enclosing except clauses
+        self._inline_depth = 0
 
     # ------------------------------------------------------------------ helpers
     def _join(self, states):
@@ -144,9 +145,37 @@ class Engine:
             out.normal.append(cur)
         return out
 
+    def _inline_unknown(self, s: ast.stmt, state, out: Completions):
+        """For analyses without an environment (event sets): run the bodies of unknown helpers called by this simple
+        statement in place, so that events / branches inside an extracted helper are seen.  Returns the state after them."""
+        from .helpers import unknown_callee
+        if not getattr(self.a, "inline_unknown", False) or self._inline_depth >= 4:
+            return state
+        cur = state
+        for n in ast.walk(s):
+            if isinstance(n, ast.Call):
+                t = unknown_callee(self.prog, self.fn, n)
+                if t is None or cur is None:
+                    continue
+                saved = self.fn
+                self.fn = t
+                self._inline_depth += 1
+                try:
+                    r = self.block(t.node.body, cur)
+                finally:
+                    self.fn = saved
+                    self._inline_depth -= 1
+                out.raises += r.raises
+                cur = self._join(r.normal + [st for st, _n in r.returns])
+        return cur
+
     def statement(self, s: ast.stmt, state) -> Completions:
         out = Completions()
         self._visit(s, state)
+        if isinstance(s, (ast.Assign, ast.AugAssign, ast.AnnAssign, ast.Expr, ast.Return)):
+            state = self._inline_unknown(s, state, out)
+            if state is None:
+                return out
         if isinstance(s, ast.Expr) and isinstance(s.value, ast.Call) and (
                 (isinstance(s.value.func, ast.Name) and s.value.func.id in ("exit", "quit")) or
                 (isinstance(s.value.func, ast.Attribute) and s.value.func.attr == "exit" and isinstance(s.value.func.value, ast.Name)
@@ -192,6 +221,10 @@ class Engine:
             out.continues.append(state)
         elif isinstance(s, ast.If):
             self._expr_raises(s.test, state, out)
+            if getattr(self.a, "inline_unknown", False):
+                state = self._inline_unknown(ast.Expr(value=s.test), state, out)
+                if state is None:
+                    return out
             t = self.a.branch(s.test, True, state)
             f = self.a.branch(s.test, False, state)
             t_norm = f_norm = False
@@ -271,8 +304,18 @@ class Engine:
         return self.a.for_bind(s, head), head
 
     # ------------------------------------------------------------------ try
+    def try_body_enter(self, s):
+        pass
+
+    def try_body_exit(self, s):
+        pass
+
     def try_(self, s: ast.Try, state) -> Completions:
-        body = self.block(s.body, state)
+        self.try_body_enter(s)
+        try:
+            body = self.block(s.body, state)
+        finally:
+            self.try_body_exit(s)
         res = Completions()
         res.returns += body.returns
         res.breaks += body.breaks
@@ -340,6 +383,8 @@ class EventAnalysis(Analysis):
         on_raises(node, state)         -> [(exc, events)]
     and receive `at[node] = state` for every visited statement.
     """
+
+    inline_unknown = True
 
     def __init__(self, must=True, on_stmt=None, on_branch=None, on_raises=None, on_handler=None, kill=None):
         self.must = must
